@@ -379,6 +379,14 @@ def clause_d(c: Check):
                  'the case file of a standalone run is `%s`, not the path as given on the command line: for a case '
                  'reached through a symbolic link the suite beside it and its home directory differ from those of the '
                  'same case listed in a suite' % (unparse(a) if a is not None else None), s_.loc)
+        # ... and the suite given with --suite is the file NAMED there (a suite run uses the names as listed:
+        # `home`, `act-home`, `including` in the suite are relative to the location of that name, not of a link target)
+        a2 = b.get('run_as_part_of_explicit_suite')
+        if a2 is not None:
+            bad = _resolved_somewhere(ix, s_.func, a2, 0)
+            c.expect(bad is None, 'C17-d', 'standalone/explicit-suite-is-the-file-named@' + s_.where,
+                     'the suite file of `--suite` is %s: a suite reached through a symbolic link is read relative to '
+                     'the link target standalone, but relative to the link in a suite run' % bad, s_.loc)
     c.floor('C17-d', 'constructions of the standalone settings from the command line', n_s, 1)
     # rf reads the suite and resolves with rs
     ok = False
@@ -470,6 +478,60 @@ def _not_the_default_setup(ix, f: FuncDef, expr, depth: int, seen: set) -> Optio
         else:
             return '`%s` bound by %s' % (expr.id, b[0])
     return None
+
+
+def _resolved_somewhere(ix, f: FuncDef, expr, depth: int) -> Optional[str]:
+    """None when no value `expr` can stand for has passed through a path resolution (`.resolve()`, os.path.realpath,
+    or a function of the repository that resolves); otherwise a description"""
+    if depth > 5 or expr is None:
+        return None
+    if isinstance(expr, ast.Constant):
+        return None
+    if isinstance(expr, ast.Name):
+        for b in f.local_bindings().get(expr.id, []):
+            if b[0] in ('assign', 'annassign') and b[1] is not None:
+                r = _resolved_somewhere(ix, f, b[1], depth + 1)
+                if r is not None:
+                    return r
+        return None
+    if isinstance(expr, ast.BinOp):
+        return _resolved_somewhere(ix, f, expr.left, depth + 1) or _resolved_somewhere(ix, f, expr.right, depth + 1)
+    if isinstance(expr, ast.IfExp):
+        return _resolved_somewhere(ix, f, expr.body, depth + 1) or _resolved_somewhere(ix, f, expr.orelse, depth + 1)
+    if isinstance(expr, ast.Attribute):
+        return _resolved_somewhere(ix, f, expr.value, depth + 1)
+    if isinstance(expr, ast.Call):
+        if isinstance(expr.func, ast.Attribute) and expr.func.attr in ('resolve', 'absolute', 'readlink'):
+            return 'resolved with `%s`' % unparse(expr)[:60]
+        d = ix.callee(f.module, f, expr)
+        if isinstance(d, External):
+            if d.dotted in ('os.path.realpath', 'os.path.abspath'):
+                return 'resolved with %s' % d.dotted
+            for a in expr.args:
+                r = _resolved_somewhere(ix, f, a, depth + 1)
+                if r is not None:
+                    return r
+            return None
+        if isinstance(d, FuncDef):
+            if _resolves(ix, d, 0):
+                return 'the result of %s, which resolves the path' % d.name
+            return None
+        return None
+    return None
+
+
+def _resolves(ix, d: FuncDef, depth: int) -> bool:
+    for n in ast.walk(d.node):
+        if isinstance(n, ast.Call):
+            if isinstance(n.func, ast.Attribute) and n.func.attr == 'resolve' and not n.args:
+                return True
+            if depth < 2:
+                cd = ix.callee(d.module, d.module.enclosing_func(n) or d, n)
+                if isinstance(cd, FuncDef) and cd is not d and _resolves(ix, cd, depth + 1):
+                    return True
+                if isinstance(cd, External) and cd.dotted == 'os.path.realpath':
+                    return True
+    return False
 
 
 def _mentions_default(v) -> bool:
